@@ -463,3 +463,84 @@ func TestC11_Rapid(t *testing.T) {
 		}
 	})
 }
+
+// ---------------------------------------------------------------------------------------
+// Sizes: a line break (LF, CR, CRLF, LFCR) sitting just before, at and just behind the offsets 2^6 .. 2^14 of a long
+// content; the cursor reads past it and then steps back and forth over it in every way of up to three operations.
+// Described rather than spelled out; the oracle is the step-by-step check itself.
+
+type c11BigCase struct {
+	B     int    `json:"b"`     // the offset
+	Break string `json:"break"` // the line break planted there
+	Shift int    `json:"shift"` // -1, 0, +1: where its first character sits relative to the offset
+	Tail  []int  `json:"tail"`  // operations after the cursor has read two characters past the break
+	Quiet bool   `json:"quiet,omitempty"`
+}
+
+func (c c11BigCase) build() c11Case {
+	at := c.B + c.Shift
+	var sb strings.Builder
+	for sb.Len() < at {
+		if sb.Len()%100 == 99 {
+			sb.WriteByte('\n')
+		} else {
+			sb.WriteByte('x')
+		}
+	}
+	sb.WriteString(c.Break)
+	sb.WriteString("ab\ncd")
+	ops := make([]int, 0, at+len(c.Break)+2+len(c.Tail))
+	for i := 0; i < at+len(c.Break)+2; i++ {
+		ops = append(ops, opRead)
+	}
+	return c11Case{Content: sb.String(), Ops: append(ops, c.Tail...), Quiet: c.Quiet}
+}
+
+func checkC11Big(c c11BigCase) *evid.Fail {
+	f := checkC11(c.build())
+	if f != nil {
+		if len(f.Msg) > 400 {
+			f.Msg = f.Msg[len(f.Msg)-400:]
+		}
+		f.Msg = fmt.Sprintf("break %q at offset %d%+d, then %s: ... %s", c.Break, c.B, c.Shift, opsString(c.Tail), f.Msg)
+	}
+	return f
+}
+
+func init() { regReplay("C11.big", checkC11Big) }
+
+func TestC11_EnumSizes(t *testing.T) {
+	rec := evid.New("C11", "TestC11_EnumSizes", "C11.big", c11Rule+"; sizes: the four line breaks planted just before, at and just behind the offsets 2^6 .. 2^14, the cursor read two characters past them, then every sequence of up to three operations out of {Unread, UnreadMany(2), UnreadMany(3), Read, PeekLine}, observed and quiet")
+	rec.Exhaustive = true
+	rec.DupFree = true
+	defer finish(t, rec)
+	alpha := []int{opUnread, opUnread2, opUnread3, opRead, opPeekLine}
+	var tails [][]int
+	for _, a := range alpha {
+		tails = append(tails, []int{a})
+		for _, b := range alpha {
+			tails = append(tails, []int{a, b})
+			for _, d := range alpha {
+				tails = append(tails, []int{a, b, d})
+			}
+		}
+	}
+	var cases []c11BigCase
+	for k := 6; k <= pick(13, 14); k++ {
+		for _, br := range []string{"\n", "\r", "\r\n", "\n\r"} {
+			for shift := -1; shift <= 1; shift++ {
+				for ti, tail := range tails {
+					cases = append(cases, c11BigCase{1 << uint(k), br, shift, tail, ti%2 == 1})
+				}
+			}
+		}
+	}
+	rec.Bounds = fmt.Sprintf("%d described histories", len(cases))
+	parallelFor(len(cases), func(i int) {
+		c := cases[i]
+		rec.Case(jsonStr(c), true, func() interface{} { return c }, fmt.Sprintf("offset:%d", c.B))
+		if f := checkC11Big(c); f != nil {
+			rec.Fail(f, c)
+		}
+	})
+}
